@@ -1,37 +1,85 @@
 package main
 
-import "golang.org/x/tools/go/ssa"
+import (
+	"go/types"
 
-// Maps are abstract: a handle (BV64). Operations are given meaning by the
-// functions below as far as the properties need it.
+	"golang.org/x/tools/go/ssa"
+)
+
+// Maps are abstract: a handle (BV64) into the typed heap. Contents are not
+// modelled: lookups and iteration yield unconstrained values, updates havoc
+// the heap. What is checked: writes to nil maps and allocation hints.
 
 func (x *Exec) mapLen(st *State, m V) V {
 	x.declareUF("maplen", []string{sortBV(64), sortMem}, sortBV(64))
 	t := st.define("mlen", sortBV(64), app("maplen", m.T, st.mem["H"].term))
 	st.assume(and(app("bvsle", bvLit(0, 64), t), app("bvult", t, bvLit(maxLen, 64))))
+	st.assume(implies(eq(m.T, bvLit(0, 64)), eq(t, bvLit(0, 64))))
 	return vBV(t, 64, true)
 }
 
 func (x *Exec) mapLookup(st *State, fr *Frame, ins *ssa.Lookup, m, key V) V {
-	unsup("map lookup")
-	return V{}
+	mt := ins.X.Type().Underlying().(*types.Map)
+	val := st.symbolic(mt.Elem(), "mapval", func(ls leafShape) *Prov {
+		if ls.ByteElem {
+			return &Prov{Space: "B", Region: "owned"}
+		}
+		return &Prov{Space: "H", Region: "heap"}
+	}, false)
+	if ins.CommaOk {
+		ok := st.freshConst("mapok", "Bool")
+		return vTuple(val, vBool(ok))
+	}
+	return val
 }
 
 func (x *Exec) makeMap(st *State, fr *Frame, ins *ssa.MakeMap) V {
-	unsup("make(map)")
-	return V{}
+	if ins.Reserve != nil {
+		n, _ := idx64(st.operand(ins.Reserve), ins.Reserve.Type())
+		x.allocBound(st, fr, ins, n)
+	}
+	p := st.allocFresh("H", bvLit(64, 64), false)
+	return vPtr(p.T, p.Prov)
 }
 
 func (x *Exec) mapUpdate(st *State, fr *Frame, ins *ssa.MapUpdate) {
-	unsup("map update")
+	m := st.operand(ins.Map)
+	x.oblige(st, x.instrName(fr, ins, "mapupdate"), "nilmap", x.safetyTags(fr), not(eq(m.T, bvLit(0, 64))), x.posOf(ins.Pos()), "assignment to an entry of a non-nil map")
+	st.assume(not(eq(m.T, bvLit(0, 64))))
+	st.materialize(st.operand(ins.Key), ins.Key.Type())
+	st.materialize(st.operand(ins.Value), ins.Value.Type())
+	st.havoc("H", x.heapKeep(st))
+	st.noteMod("H")
 }
 
+// Range over a map or string: an abstract enumeration. Next yields (ok, key, value)
+// with ok unconstrained; termination of such loops is by the runtime's iterator
+// (each entry exactly once) and is an assumption.
 func (x *Exec) rangeInit(st *State, fr *Frame, ins *ssa.Range) V {
-	unsup("range")
-	return V{}
+	v := st.operand(ins.X)
+	if v.K == KTuple {
+		return v.Fs[0]
+	}
+	return v
 }
 
 func (x *Exec) rangeNext(st *State, fr *Frame, ins *ssa.Next) V {
-	unsup("range next")
-	return V{}
+	tup := ins.Type().(*types.Tuple)
+	ok := st.freshConst("rangeok", "Bool")
+	out := []V{vBool(ok)}
+	for i := 1; i < tup.Len(); i++ {
+		t := tup.At(i).Type()
+		if b, isB := t.(*types.Basic); isB && b.Kind() == types.Invalid {
+			out = append(out, vBV(bvLit(0, 64), 64, true))
+			continue
+		}
+		out = append(out, st.symbolic(t, "rangeval", func(ls leafShape) *Prov {
+			if ls.ByteElem {
+				return &Prov{Space: "B", Region: "owned"}
+			}
+			return &Prov{Space: "H", Region: "heap"}
+		}, false))
+	}
+	x.noteAssumption("range over a map/string is an abstract enumeration: each element once, order and contents unconstrained")
+	return vTuple(out...)
 }
